@@ -147,3 +147,12 @@ Scheme denotes_mind := Minimality for denotes Sort Prop
   with elems_mind := Minimality for elems Sort Prop
   with members_mind := Minimality for members Sort Prop.
 Combined Scheme denotes_mutind from denotes_mind, elems_mind, members_mind.
+
+(* no NUL byte in strings and member names: what the binary form (C strings) can hold *)
+Fixpoint nulfree (v : jval) : Prop :=
+  match v with
+  | JStr s => ~ In 0 s
+  | JArr l => fold_right (fun x a => nulfree x /\ a) True l
+  | JObj l => fold_right (fun kx a => (let '(k, x) := kx in ~ In 0 k /\ nulfree x) /\ a) True l
+  | _ => True
+  end.
